@@ -260,16 +260,6 @@ def groupCheck (prop : String) (st : DState) (req : List String) (obs : String) 
       if first = key then (st, none)
       else (st, some s!"equivalent-inputs-differ first=[{first.take 300}] this=[{key.take 300}]")
 
-/-- C13: the options carried by the result are the annotated ones. -/
-def checkC13 (req : List String) (obs : String) : Option String :=
-  match annot req "opts", decodeParse (splitBar obs).1 with
-  | some want, .ok o _ =>
-    if want = "any" || optionsStr o = want.replace "_" " " then none
-    else some s!"wrong-options want={want} got={optionsStr o}"
-  | some _, .panic m => some ("panic " ++ m)
-  | some want, .err v _ _ _ _ => if want = "any" then none else some s!"rejected ({v})"
-  | _, _ => none
-
 /-! ### compile-side observations -/
 
 inductive ImplCompile where
@@ -301,6 +291,29 @@ def treeOf (req : List String) (obs : String) : Option Expr :=
   | _ => none
 
 def readProgram (text : Text) : Option Scheme.Program := (Scheme.readAll text).bind Scheme.programOf
+
+/-- C13: the options carried by the result are the annotated ones, and the scan call uses them. -/
+def checkC13 (req : List String) (obs : String) : Option String :=
+  match annot req "opts", decodeParse (splitBar obs).1 with
+  | some want, .ok o _ =>
+    if want = "any" then none
+    else if optionsStr o ≠ want.replace "_" " " then some s!"wrong-options want={want} got={optionsStr o}"
+    else
+      -- compile requests: the fifth argument of the scan call is the requested count, or the runtime's default
+      match decodeCompile obs with
+      | .ok _ _ _ ((text, _) :: _) =>
+        match (readProgram text).map (·.threads) with
+        | some thr =>
+          let wantThr : Scheme.SExp := match o.threads with
+            | some n => .num n
+            | none => .list [.sym (cl!"lipe-getopt-thread-count")]
+          if thr == wantThr then none else some s!"scan-call-thread-argument-differs-from-the-options got={optionsStr o}"
+        | none => some "program-does-not-read-back"
+      | _ => none
+  | some _, .panic m => some ("panic " ++ m)
+  | some want, .err v _ _ _ _ => if want = "any" then none else some s!"rejected ({v})"
+  | _, _ => none
+
 
 /-! ### C12 -/
 
@@ -628,10 +641,14 @@ def checkC16 (obs : String) : Option String :=
         -- of the name): printers on one port object must hold one and the same mutex object
         let resolve (k : Nat) (nm : Text) : Option Nat :=
           (((p.bindings.take k).zipIdx.filter (fun x => x.1.1 = nm)).getLast?).map (·.2)
-        let captured : List (Option Nat × Option Nat) := p.bindings.zipIdx.filterMap fun (b, k) =>
+        -- a port object is identified by what its variable is bound to: every (current-output-port) is the
+        -- one standard output, every (open-file NAME ..) of one NAME is one destination
+        let portKey (k : Nat) (nm : Text) : Option Scheme.SExp :=
+          (resolve k nm).bind fun j => (p.bindings[j]?).map fun b => b.2
+        let captured : List (Option Scheme.SExp × Option Nat) := p.bindings.zipIdx.filterMap fun (b, k) =>
           match b.2 with
           | .list [.sym mp, .sym port, .sym mutex, _] =>
-            if mp = cl!"make-printer" then some (resolve k port, resolve k mutex) else none
+            if mp = cl!"make-printer" then some (portKey k port, resolve k mutex) else none
           | _ => none
         let clash := captured.any fun a => captured.any fun b => a.1 == b.1 && a.2 != b.2
         let unbound := captured.any fun a => a.1.isNone || a.2.isNone
